@@ -3,7 +3,9 @@
 //! dispatch underneath.  Interleavings (consumer vs delivering thread vs closing
 //! thread) by Lal–Reps; counting / history clauses sequentially.
 //! (Under the guard the slot table has 16 entries instead of 128.)
-use crate::c05::{SA, SB};
+/// iterator harnesses use SIGHUP / SIGINT: they fit the 8-entry table of verification builds
+pub const SA: libc::c_int = libc::SIGHUP;
+pub const SB: libc::c_int = libc::SIGINT;
 use crate::common::*;
 use libc::vshim::net::{UnixStream, PAIR_READ, PAIR_WRITE};
 use libc::vshim::{eh, flag, flag_at, now, NT};
@@ -98,159 +100,284 @@ fn ready_cb(r: &mut UnixStream) -> Result<bool, Error> {
     }
 }
 
+/// Build the delivery object the way SignalsInfo::with_exfiltrator does (the
+/// front-end in iterator/mod.rs only forwards to these backend calls; going
+/// through it would create and drop a Handle clone per call, whose reference
+/// counts CBMC cannot fold).
+#[cfg(kani)]
+pub fn mk_delivery(nonblocking: bool) -> (SignalDelivery<UnixStream, SignalOnly>, Handle) {
+    reg::init_globals();
+    let p = ok(UnixStream::pair());
+    assert!(p.is_some(), "C09: pair failed");
+    let (r, w) = p.unwrap();
+    if nonblocking {
+        core::mem::forget(r.set_nonblocking(true));
+    }
+    let d = ok(SignalDelivery::with_pipe(r, w, SignalOnly::default(), &[SA]));
+    assert!(d.is_some(), "C09: constructing the signal delivery failed");
+    let d = d.unwrap();
+    let h = d.handle();
+    (d, h)
+}
+
+/// SignalsInfo::has_signals: blocking one-byte read of the self-pipe.
+pub fn has_signals_blocking(r: &mut UnixStream) -> Result<bool, Error> {
+    use std::io::Read;
+    match r.read(&mut [0u8]) {
+        Ok(n) => Ok(n > 0),
+        Err(e) => Err(e),
+    }
+}
+
+/// SignalsInfo::wait, on the backend object.
+#[cfg(kani)]
+pub fn wait_and_drain(d: &mut SignalDelivery<UnixStream, SignalOnly>) {
+    let pending = match d.poll_pending(&mut has_signals_blocking) {
+        Ok(Some(p)) => p,
+        Ok(None) => d.pending(),
+        Err(e) => {
+            core::mem::forget(e);
+            return;
+        }
+    };
+    for sig in pending {
+        note(sig);
+    }
+}
+
+// ---------------------------------------------------------------------------
+// NEST ghost state (no rounds: a global event counter orders things)
+// ---------------------------------------------------------------------------
+#[allow(non_snake_case)]
+pub mod X {
+    pub static mut deliveries_done: u32 = 0; // complete deliveries of SA so far
+    pub static mut closed_done: bool = false; // close() has returned
+    pub static mut slot_var: usize = usize::MAX; // shim word of SA's pending flag
+    pub static mut closed_var: usize = usize::MAX;
+    pub static mut lost: bool = false;
+    pub static mut stranded: bool = false;
+    pub static mut nested_consumer_runs: u32 = 0;
+    pub static mut handle: *const super::Handle = core::ptr::null();
+    pub static mut delivery: *mut super::SignalDelivery<super::UnixStream, super::SignalOnly> = core::ptr::null_mut();
+}
+
+/// the consumer is about to sleep on the empty self-pipe (SEQ / NEST harnesses)
+fn block_hook_nest(_fd: c_int) -> bool {
+    unsafe {
+        I::consumer_blocked += 1;
+        if X::deliveries_done > 0 && I::yielded_sa == 0 {
+            X::lost = true;
+        }
+        if X::closed_done {
+            X::stranded = true;
+        }
+    }
+    false
+}
+
+fn full_delivery() {
+    deliver(SA);
+    unsafe { X::deliveries_done += 1 };
+}
+
+/// consumer outer: a complete delivery may land at every system call of the
+/// consumer and at every access to the watched signal's slot
+fn interrupt_with_delivery(kind: u8, var: usize) {
+    unsafe {
+        if !(kind == vshim::OP_SYS || var == X::slot_var) {
+            return;
+        }
+    }
+    if vshim::any_bool() {
+        vshim::consume_interrupt();
+        full_delivery();
+    }
+}
+
+/// delivery outer: a complete consumer iteration (on another thread) may run at
+/// every system call / slot access of the delivering action
+fn interrupt_with_consumer(kind: u8, var: usize) {
+    unsafe {
+        if !vshim::in_delivery() || !(kind == vshim::OP_SYS || var == X::slot_var) {
+            return;
+        }
+        if vshim::any_bool() {
+            vshim::consume_interrupt();
+            X::nested_consumer_runs += 1;
+            // the consumer only runs if it was woken: a byte is in the pipe
+            vshim::assume(libc::model::fget(PAIR_WRITE as usize) > 0);
+            let depth = vshim::ST::delivery_depth;
+            vshim::ST::delivery_depth = 0;
+            wait_and_drain(&mut *X::delivery);
+            vshim::ST::delivery_depth = depth;
+        }
+    }
+}
+
+/// consumer outer: close() (from another thread) may land at every check of the closed flag and every system call
+fn interrupt_with_close(kind: u8, var: usize) {
+    unsafe {
+        if X::closed_done || !(kind == vshim::OP_SYS || var == X::closed_var) {
+            return;
+        }
+        if vshim::any_bool() {
+            vshim::consume_interrupt();
+            (*X::handle).close();
+            X::closed_done = true;
+        }
+    }
+}
+
 #[cfg(kani)]
 pub mod proofs {
     use super::*;
 
-    fn lr_setup(k: usize) {
-        libc::model::share_fill(PAIR_WRITE as usize);
-        vshim::set_mode_lr(k, 2, 0);
-        unsafe { vshim::HOOKS.block = block_hook };
-    }
-
-    /// C09: one delivery on another thread against a consumer doing up to two
-    /// wait()+drain iterations: the consumer never sleeps on the empty pipe while
-    /// the delivered signal is unreported.
-    #[kani::proof]
-    #[kani::stub(alloc::alloc::dealloc_nonnull, noop_dealloc)]
-    #[kani::unwind(18)]
-    pub fn c09_lr_wait_vs_delivery() {
-        reg::init_globals();
-        unsafe { vshim::ST::mirror_ptrs = true };
-        let s = ok(Signals::new(&[SA]));
-        assert!(s.is_some(), "C09: constructing Signals failed");
-        let mut signals = s.unwrap();
-        lr_setup(3);
-        vshim::thread_start(0);
-        delivery();
-        vshim::thread_start(1);
-        let mut it = 0;
-        while it < 2 {
-            if unsafe { I::yielded_sa } == 0 {
-                for sig in signals.wait() {
-                    note(sig);
-                }
-            }
-            it += 1;
+    fn arm(d: &mut SignalDelivery<UnixStream, SignalOnly>, h: &Handle) {
+        unsafe {
+            X::slot_var = be::slot_var(d, SA as usize);
+            X::closed_var = be::closed_var(h);
+            X::handle = h;
+            X::delivery = d;
+            vshim::HOOKS.block = block_hook_nest;
         }
-        let got = unsafe { I::yielded_sa };
-        let other = unsafe { I::yielded_other };
-        crate::lr_verdict!(
-            "C09",
-            (E_LOST, "the consumer blocks on the self-pipe while a delivered signal is unreported and no wake-up is outstanding"),
-            (E_STRANDED, "C11 clause: a consumer blocks after close() returned"),
-        );
-        assert!(other == 0, "C10: the iterator yielded a signal it was not asked to watch");
-        assert!(got <= 1, "C10: one delivery was reported more than once");
-        kani::cover!(got == 1, "the delivery was reported");
-        kani::cover!(got == 1 && unsafe { I::delivery_start[0] / NT } >= 1, "the delivery began after the consumer had started");
-        core::mem::forget(signals);
     }
 
-    /// C11: close() on another thread against one poll_signal() call of an async
-    /// adapter: Pending only if the readiness callback was consulted in that call
-    /// and said "nothing"; Closed/Signal otherwise; sticky afterwards.
+    /// C09 (a): a delivery lands anywhere inside one consumer iteration
+    /// (read / drain / scan); the next iteration must not sleep on an empty pipe
+    /// with that signal unreported.
     #[kani::proof]
-    #[kani::stub(alloc::alloc::dealloc_nonnull, noop_dealloc)]
-    #[kani::unwind(18)]
-    pub fn c11_lr_poll_vs_close() {
-        reg::init_globals();
-        unsafe { vshim::ST::mirror_ptrs = true };
-        let p = ok(UnixStream::pair());
-        assert!(p.is_some(), "C11: pair failed");
-        let (r, w) = p.unwrap();
-        core::mem::forget(r.set_nonblocking(true));
-        let d = ok(SignalDelivery::with_pipe(r, w, SignalOnly::default(), &[SA]));
-        assert!(d.is_some(), "C11: constructing the delivery failed");
-        let d = d.unwrap();
-        let handle = d.handle();
+    #[kani::unwind(6)]
+    pub fn c09_nest_delivery_inside_consumer() {
+        let (mut d, h) = mk_delivery(false);
+        arm(&mut d, &h);
+        // the consumer was woken by an earlier, already reported event: one byte is pending
+        let spurious: bool = kani::any();
+        if spurious {
+            unsafe { K::fds[PAIR_WRITE as usize].fill = 1 };
+        } else {
+            full_delivery();
+        }
+        unsafe { vshim::HOOKS.interrupt = interrupt_with_delivery };
+        vshim::set_mode_nest(1, 1, 0);
+        wait_and_drain(&mut d);
+        vshim::set_mode_seq();
+        let first = unsafe { I::yielded_sa };
+        if first == 0 {
+            wait_and_drain(&mut d);
+        }
+        assert!(!unsafe { X::lost }, "C09: the consumer blocks on the self-pipe while a delivered signal is unreported and no wake-up is outstanding");
+        assert!(unsafe { I::yielded_other } == 0, "C10: the iterator yielded a signal it was not asked to watch");
+        assert!(unsafe { I::yielded_sa } <= unsafe { X::deliveries_done }, "C10: the iterator has yielded a signal more often than it was delivered");
+        kani::cover!(spurious && vshim::interrupts_taken() == 1 && first == 0, "delivery landed after the scan had passed its slot");
+        kani::cover!(!spurious && unsafe { X::deliveries_done } == 2, "two deliveries, one nested");
+        core::mem::forget((d, h));
+    }
+
+    /// C09 (b): the consumer (another thread) runs a complete iteration in the
+    /// middle of the delivering action; afterwards it must not sleep with the
+    /// signal unreported.
+    #[kani::proof]
+    #[kani::unwind(6)]
+    pub fn c09_nest_consumer_inside_delivery() {
+        let (mut d, h) = mk_delivery(false);
+        arm(&mut d, &h);
+        unsafe { vshim::HOOKS.interrupt = interrupt_with_consumer };
+        vshim::set_mode_nest(1, 1, 0);
+        full_delivery();
+        vshim::set_mode_seq();
+        if unsafe { I::yielded_sa } == 0 {
+            wait_and_drain(&mut d);
+        }
+        assert!(!unsafe { X::lost }, "C09: the consumer blocks on the self-pipe while a delivered signal is unreported and no wake-up is outstanding");
+        assert!(unsafe { I::yielded_sa } == 1, "C09: a delivered signal was not obtained by a consumer that keeps waiting and draining");
+        kani::cover!(unsafe { X::nested_consumer_runs } == 1, "a consumer iteration ran inside the delivery");
+        kani::cover!(unsafe { X::nested_consumer_runs } == 0, "undisturbed delivery");
+        core::mem::forget((d, h));
+    }
+
+    /// C11: close() lands anywhere inside one poll_signal() call of an async adapter.
+    #[kani::proof]
+    #[kani::unwind(6)]
+    pub fn c11_nest_close_inside_poll() {
+        let (d, h) = mk_delivery(true);
         let mut iter = SignalIterator::new(d);
-        lr_setup(3);
-        vshim::thread_start(0);
-        handle.close();
-        unsafe { I::close_end = now() };
-        vshim::thread_start(1);
+        unsafe {
+            X::closed_var = be::closed_var(&h);
+            X::handle = &h;
+            vshim::HOOKS.block = block_hook_nest;
+            vshim::HOOKS.interrupt = interrupt_with_close;
+        }
+        let before: bool = kani::any();
+        if before {
+            h.close();
+            unsafe { X::closed_done = true };
+        }
+        vshim::set_mode_nest(1, 1, 0);
         let c0 = unsafe { I::consulted };
         let res = iter.poll_signal(&mut ready_cb);
+        vshim::set_mode_seq();
         let consulted = unsafe { I::consulted } - c0;
-        let started_after_close = unsafe { I::close_end } < now();
         let mut pending = false;
         let mut closed = false;
         match res {
             PollResult::Pending => {
                 pending = true;
-                if consulted == 0 || unsafe { I::last_answer } {
-                    flag(E_PENDING_UNARMED);
-                }
+                assert!(consulted >= 1 && !unsafe { I::last_answer }, "C11: poll reported 'pending' without having consulted the readiness callback in that call (no wake-up is armed)");
             }
             PollResult::Closed => closed = true,
-            PollResult::Signal(_) => flag(E_SPURIOUS),
+            PollResult::Signal(_) => assert!(false, "C10: a signal was reported although none was delivered"),
             PollResult::Err(e) => core::mem::forget(e),
         }
-        // sticky: once close() has returned, is_closed() is true for good
-        if unsafe { I::close_end } < now() && !handle.is_closed() {
-            flag(E_NOT_STICKY);
+        if unsafe { X::closed_done } {
+            assert!(h.is_closed(), "C11: is_closed() is false after close() returned");
+            // a later poll must say closed, not pending
+            let res2 = iter.poll_signal(&mut ready_cb);
+            let ok2 = match res2 {
+                PollResult::Closed => true,
+                PollResult::Err(e) => {
+                    core::mem::forget(e);
+                    true
+                }
+                _ => false,
+            };
+            assert!(ok2, "C11: a poll that starts after close() returned does not report closed");
         }
-        crate::lr_verdict!(
-            "C11",
-            (E_PENDING_UNARMED, "poll reported 'pending' without having consulted the readiness callback in that call (no wake-up is armed)"),
-            (E_NOT_STICKY, "is_closed() is false after close() returned"),
-            (E_SPURIOUS, "C10 clause: a signal was reported although none was delivered"),
-            (E_STRANDED, "a consumer blocks after close() returned"),
-        );
-        kani::cover!(closed, "poll reported closed");
-        kani::cover!(pending && consulted == 1, "poll consulted the callback and reported pending");
-        core::mem::forget((iter, handle));
+        assert!(!before || closed, "C11: a poll that starts after close() returned does not report closed");
+        kani::cover!(closed && !before, "close landed inside the poll and it reported closed");
+        kani::cover!(pending && consulted == 1 && !unsafe { X::closed_done }, "no close: callback consulted, pending");
+        core::mem::forget((iter, h));
     }
 
-    /// C11: close() on another thread against a blocking wait(): never left asleep.
+    /// C11: close() lands anywhere inside a blocking wait: the consumer is not left asleep.
     #[kani::proof]
-    #[kani::stub(alloc::alloc::dealloc_nonnull, noop_dealloc)]
-    #[kani::unwind(18)]
-    pub fn c11_lr_wait_vs_close() {
-        reg::init_globals();
-        unsafe { vshim::ST::mirror_ptrs = true };
-        let s = ok(Signals::new(&[SA]));
-        assert!(s.is_some(), "C11: constructing Signals failed");
-        let mut signals = s.unwrap();
-        let handle = signals.handle();
-        lr_setup(3);
-        vshim::thread_start(0);
-        handle.close();
-        unsafe { I::close_end = now() };
-        vshim::thread_start(1);
-        for sig in signals.wait() {
-            note(sig);
+    #[kani::unwind(6)]
+    pub fn c11_nest_close_inside_wait() {
+        let (mut d, h) = mk_delivery(false);
+        unsafe {
+            X::closed_var = be::closed_var(&h);
+            X::handle = &h;
+            vshim::HOOKS.block = block_hook_nest;
+            vshim::HOOKS.interrupt = interrupt_with_close;
         }
-        let second = unsafe { I::close_end } < now();
-        if second {
-            // a wait that starts after close() returned must not block either
-            for sig in signals.wait() {
-                note(sig);
-            }
+        vshim::set_mode_nest(1, 1, 0);
+        wait_and_drain(&mut d);
+        vshim::set_mode_seq();
+        if unsafe { X::closed_done } {
+            wait_and_drain(&mut d);
+            wait_and_drain(&mut d);
         }
-        if unsafe { I::yielded_sa + I::yielded_other } != 0 {
-            flag(E_SPURIOUS);
-        }
-        crate::lr_verdict!(
-            "C11",
-            (E_STRANDED, "a consumer blocks after close() returned"),
-            (E_SPURIOUS, "C10 clause: a signal was reported although none was delivered"),
-        );
-        kani::cover!(second, "a wait() began after close() had returned");
-        kani::cover!(unsafe { I::consumer_blocked } == 0, "the consumer never had to sleep");
-        core::mem::forget((signals, handle));
+        assert!(!unsafe { X::stranded }, "C11: a consumer blocks after close() returned");
+        assert!(unsafe { I::yielded_sa + I::yielded_other } == 0, "C10: a signal was reported although none was delivered");
+        kani::cover!(unsafe { X::closed_done } && unsafe { I::consumer_blocked } == 0, "close arrived before the consumer slept; all waits returned");
+        core::mem::forget((d, h));
     }
 
     /// C10 (sequential): bursts of deliveries vs pending(): never more yields than
     /// deliveries, nothing unwatched, SignalOnly collapses a burst to one report.
     #[kani::proof]
-    #[kani::unwind(18)]
+    #[kani::unwind(6)]
     pub fn c10_seq_counts_signal_only() {
-        reg::init_globals();
-        let s = ok(Signals::new(&[SA]));
-        assert!(s.is_some(), "C10: constructing Signals failed");
-        let mut signals = s.unwrap();
+        let (mut signals, h) = mk_delivery(false);
         let mut delivered = 0u32;
         let mut step = 0;
         while step < 3 {
@@ -274,7 +401,6 @@ pub mod proofs {
             assert!(unsafe { I::yielded_other } == 0, "C10: the iterator yielded a signal it was not asked to watch");
             step += 1;
         }
-        // whatever is left comes out once, then nothing
         for sig in signals.pending() {
             note(sig);
         }
@@ -286,6 +412,6 @@ pub mod proofs {
         assert!(total <= delivered && (delivered == 0 || total >= 1), "C09: a delivered signal was never reported although the consumer kept draining");
         kani::cover!(delivered == 2 && total == 1, "a burst was collapsed");
         kani::cover!(delivered == 2 && total == 2, "two deliveries, two reports");
-        core::mem::forget(signals);
+        core::mem::forget((signals, h));
     }
 }
